@@ -503,7 +503,7 @@ pub fn run(cx: &Cx) -> PropResult {
     PropResult::new(
         acc,
         "exploration",
-        "(a) generated (type, value) cases, including values whose encoding fails (non-BMP chars) and a stream of values over a six-string alphabet with DeduplicatedString and derived types (back-references, repeated header names): the same instance is serialized through serialize(Vec<u8>), serialize(BytesMut), serialize_to_bytes, serialize_to_byte_vec, a user-defined recording output and the same output fed byte by byte; all streams (or all errors) must be identical and SizeCalculator.size() must equal the length; so for values of a user codec that writes a compressed block (0 - 200 000 content bytes, compressible or not, levels 0-9) through the context. (b) generated sequences of primitive reads (fixed-width, varints, read_bytes / skip with counts 0, remaining-2..remaining+2, usize::MAX, usize::MAX-pos, huge; read_compressed) over generated byte strings (up to 48 bytes, one in 37 between 4 000 and 70 000 bytes with counts around 256, 1 024, 4 096, 8 192 and 65 536), executed on SliceInput, OwnedInput and DeserializationContext: results must agree op by op and the three must see the end of input at the same point; sequences over at most 64 bytes are also run by a field codec inside a chunk of an evolved record in the middle of a larger buffer, where the context must behave like an input over the chunk's bytes alone. Non-trivial = (a) encoding >= 2 bytes or failing; (b) a sequence with a successful multi-byte read and a failing op.",
+        "(a) generated (type, value) cases, including values whose encoding fails (non-BMP chars) and a stream of values over a six-string alphabet with DeduplicatedString and derived types (back-references, repeated header names): the same instance is serialized through serialize(Vec<u8>), serialize(BytesMut), serialize_to_bytes, serialize_to_byte_vec, a user-defined recording output and the same output fed byte by byte; all streams (or all errors) must be identical and SizeCalculator.size() must equal the length; so for values of a user codec that writes a compressed block (0 - 200 000 content bytes, compressible or not, levels 0-9) through the context. (b) generated sequences of primitive reads (fixed-width, varints, read_bytes / skip with counts 0, remaining-2..remaining+2, usize::MAX, usize::MAX-pos, huge; read_compressed) over generated byte strings (up to 48 bytes, one in 37 between 4 000 and 70 000 bytes with counts around 256, 1 024, 4 096, 8 192 and 65 536), executed on SliceInput, OwnedInput and DeserializationContext: results must agree op by op and the three must see the end of input at the same point; sequences over at most 64 bytes are also run by a field codec inside a chunk of an evolved record in the middle of a larger buffer, where the context must behave like an input over the chunk's bytes alone. (c) values at real static types (String, Vec<u8>, &str, Bytes, &[u8], Vec<String>, Option<..>, Box<String>, tuples) around the empty value through every entry point and sink against the reference bytes. Non-trivial = (a) encoding >= 2 bytes or failing; (b) a sequence with a successful multi-byte read and a failing op.",
     )
 }
 
